@@ -1963,7 +1963,7 @@ class Polygon2D(Base2DIn2D):
             and it may be necessary to assess this when interpreting the result.
         """
         # intersect the polygons with one another
-        int_poly = Polygon2D.intersect_polygon_segments(polygons, tolerance)
+        int_poly = Polygon2D.intersect_polygon_segments(list(polygons), tolerance)
 
         # get indices of all unique vertices across the polygons
         vertices = []  # collection of vertices as point objects
